@@ -382,7 +382,8 @@ func (s *LegacyServer) Introspect(ctx context.Context, r *Request[IntrospectionR
 	}
 	err = s.provider.Storage().SetIntrospectionFromToken(ctx, response, tokenID, subject, clientID)
 	if err != nil {
-		return NewResponse(response), nil
+		// the storage may already have written into response: answer with a fresh, inactive one
+		return NewResponse(new(oidc.IntrospectionResponse)), nil
 	}
 	response.Active = true
 	return NewResponse(response), nil
